@@ -448,6 +448,21 @@ func runC14(p *core.Program, r *core.Report) {
 				}
 			}
 		}
+		// the key list has exactly one cell per entry (a longer one adds zero keys, which are
+		// sorted in and looked up like real ones)
+		for _, in := range path.Instrs(fn) {
+			if mk, ok := in.(*ssa.MakeSlice); ok {
+				if _, isKeys := mk.Type().Underlying().(*types.Slice); isKeys {
+					pcx := newPathCtx(p)
+					ln := pcx.path(mk.Len)
+					okLen := ln == "len(m)"
+					if k, isK := path.IntConst(mk.Len); isK && k == 0 {
+						okLen = true // filled by append
+					}
+					c.ob("PV2", "gogu.Find", "key list sized by the map", p.InstrPos(mk), okLen, "the slice the keys are collected into must have len(m) cells (or start empty and grow by append): it has "+ln)
+				}
+			}
+		}
 		c.ob("PT2", "gogu.Find", "keys sorted ascending before the selection", c.fpos(fn), okSort, "the selecting loop must range over keys that passed through sort.Slice(keys, func(i, j) bool { return keys[i] < keys[j] })")
 		// the sort precedes the selecting loop: the selecting MapUpdate is not reachable without passing the sort
 		if keysVal != nil {
